@@ -14,7 +14,7 @@ Section TreeInd.
   Variables (Pn : node -> Prop) (Pg : group -> Prop) (Pc : clipdef -> Prop) (Pm : maskdef -> Prop)
             (Pf : filterdef -> Prop) (Pp : prim -> Prop) (Pa : paint -> Prop).
   Hypothesis Hgroup : forall g, Pg g -> Pn (NGroup g).
-  Hypothesis Hpath : forall i fl st, Pa fl -> Pa st -> Pn (NPath i fl st).
+  Hypothesis Hpath : forall i vz fl st, Pa fl -> Pa st -> Pn (NPath i vz fl st).
   Hypothesis Himage : forall i sub, OptP Pg sub -> Pn (NImage i sub).
   Hypothesis Htext : forall i flat chunks, Pg flat -> Pn (NText i flat chunks).
   Hypothesis HG : forall i sy clip mask filters kids,
@@ -32,7 +32,7 @@ Section TreeInd.
   Fixpoint node_ind' (n : node) {struct n} : Pn n :=
     match n return Pn n with
     | NGroup g => Hgroup g (group_ind' g)
-    | NPath i fl st => Hpath i fl st (paint_ind' fl) (paint_ind' st)
+    | NPath i vz fl st => Hpath i vz fl st (paint_ind' fl) (paint_ind' st)
     | NImage i sub =>
         Himage i sub (match sub return OptP Pg sub with Some r => group_ind' r | None => I end)
     | NText i flat chunks => Htext i flat chunks (group_ind' flat)
@@ -129,8 +129,8 @@ Section Eqns.
     if sf then walk_group sf f g (walk_gsub sf f g (f (NGroup g) a))
     else walk_gsub sf f g (walk_group sf f g (f (NGroup g) a)).
   Proof. reflexivity. Qed.
-  Lemma walk_node_path i fl st a :
-    walk_node sf f (NPath i fl st) a = walk_paint sf f st (walk_paint sf f fl (f (NPath i fl st) a)).
+  Lemma walk_node_path i vz fl st a :
+    walk_node sf f (NPath i vz fl st) a = walk_paint sf f st (walk_paint sf f fl (f (NPath i vz fl st) a)).
   Proof. reflexivity. Qed.
   Lemma walk_node_image i sub a :
     walk_node sf f (NImage i sub) a =
@@ -156,7 +156,7 @@ End Eqns.
 
 Lemma all_node_group g : all_node (NGroup g) = NGroup g :: all_group g ++ all_gdefs g.
 Proof. reflexivity. Qed.
-Lemma all_node_path i fl st : all_node (NPath i fl st) = NPath i fl st :: all_paint fl ++ all_paint st.
+Lemma all_node_path i vz fl st : all_node (NPath i vz fl st) = NPath i vz fl st :: all_paint fl ++ all_paint st.
 Proof. reflexivity. Qed.
 Lemma all_node_image i sub :
   all_node (NImage i sub) = NImage i sub :: match sub with Some r => all_group r | None => [] end.
@@ -229,7 +229,7 @@ Section WalkInv.
       rewrite walk_node_group.
       destruct sf; [apply H1; auto; apply H2; auto | apply H2; auto; apply H1; auto].
     - (* NPath *)
-      intros i fl st Hfl Hst I HI a Ha. rewrite walk_node_path. rewrite all_node_path in HI.
+      intros i vz fl st Hfl Hst I HI a Ha. rewrite walk_node_path. rewrite all_node_path in HI.
       apply Hst. { eapply inv_on_incl; [|exact HI]. apply incl_tl, incl_appr, incl_refl. }
       apply Hfl. { eapply inv_on_incl; [|exact HI]. apply incl_tl, incl_appl, incl_refl. }
       apply HI; simpl; auto.
@@ -360,7 +360,7 @@ Section WalkDone.
       + destruct sf; [apply Sg, Ss|apply Ss, Sg]; apply D1.
       + apply in_app_or in Hn. destruct sf, Hn as [Hn|Hn]; auto.
     - (* NPath *)
-      intros i fl st Hfl Hst n Hn a. rewrite all_node_path in Hn. rewrite walk_node_path.
+      intros i vz fl st Hfl Hst n Hn a. rewrite all_node_path in Hn. rewrite walk_node_path.
       destruct Hn as [<-|Hn].
       + apply Sa, Sa, D1.
       + apply in_app_or in Hn. destruct Hn as [Hn|Hn]; auto.
